@@ -29,6 +29,7 @@ func scenario(name string, opts txfile.Options, noIO bool, fn func(e *fenv.Env))
 		e.Close()
 	}()
 	tr.Events = e.Events()
+	tr.Writer = e.WriterEvents()
 	return tr
 }
 
